@@ -1,7 +1,449 @@
 package main
 
-import "fmt"
+import (
+	"flag"
+	"fmt"
+	"go/ast"
+	"go/parser"
+	"go/token"
+	"os"
+	"path/filepath"
+	"regexp/syntax"
+	"sort"
+	"strconv"
+	"strings"
+)
+
+// T2: source facts re-extracted from /repo on every run and written as Lean terms into
+// lean/PGV/Generated/*.lean (only when the content changes, so that `lake build` replays otherwise).
+// Nothing here imports the repository's code: go/ast, go/parser and regexp/syntax only.
+
+func leanBytes(s string) string {
+	var parts []string
+	for _, c := range []byte(s) {
+		parts = append(parts, strconv.Itoa(int(c)))
+	}
+	return "[" + strings.Join(parts, ", ") + "]"
+}
+
+func leanStr(s string) string { return strconv.Quote(s) }
+
+func parseDir(dir string) (*token.FileSet, []*ast.File) {
+	fset := token.NewFileSet()
+	pkgs, err := parser.ParseDir(fset, dir, func(fi os.FileInfo) bool { return !strings.HasSuffix(fi.Name(), "_test.go") }, parser.ParseComments)
+	if err != nil {
+		fmt.Fprintln(os.Stderr, "extract: parse", dir, err)
+		os.Exit(1)
+	}
+	var files []*ast.File
+	var names []string
+	byName := map[string]*ast.File{}
+	for _, p := range pkgs {
+		for n, f := range p.Files {
+			names = append(names, n)
+			byName[n] = f
+		}
+	}
+	sort.Strings(names)
+	for _, n := range names {
+		files = append(files, byName[n])
+	}
+	return fset, files
+}
+
+// constant strings of a package: `const ( VTo = "to" ... )` and simple `var x = "..."`
+func constStrings(files []*ast.File) map[string]string {
+	out := map[string]string{}
+	for _, f := range files {
+		for _, d := range f.Decls {
+			gd, ok := d.(*ast.GenDecl)
+			if !ok || (gd.Tok != token.CONST && gd.Tok != token.VAR) {
+				continue
+			}
+			for _, s := range gd.Specs {
+				vs := s.(*ast.ValueSpec)
+				for i, n := range vs.Names {
+					if i < len(vs.Values) {
+						if bl, ok := vs.Values[i].(*ast.BasicLit); ok && bl.Kind == token.STRING {
+							if v, err := strconv.Unquote(bl.Value); err == nil {
+								out[n.Name] = v
+							}
+						}
+					}
+				}
+			}
+		}
+	}
+	return out
+}
+
+// every `X = regexp.MustCompile(<string literal>)`
+func patterns(files []*ast.File) [][2]string {
+	var out [][2]string
+	for _, f := range files {
+		ast.Inspect(f, func(n ast.Node) bool {
+			vs, ok := n.(*ast.ValueSpec)
+			if !ok {
+				return true
+			}
+			for i, nm := range vs.Names {
+				if i >= len(vs.Values) {
+					continue
+				}
+				call, ok := vs.Values[i].(*ast.CallExpr)
+				if !ok || len(call.Args) != 1 {
+					continue
+				}
+				sel, ok := call.Fun.(*ast.SelectorExpr)
+				if !ok || sel.Sel.Name != "MustCompile" {
+					continue
+				}
+				bl, ok := call.Args[0].(*ast.BasicLit)
+				if !ok || bl.Kind != token.STRING {
+					continue
+				}
+				p, err := strconv.Unquote(bl.Value)
+				if err != nil {
+					continue
+				}
+				out = append(out, [2]string{nm.Name, p})
+			}
+			return true
+		})
+	}
+	sort.Slice(out, func(i, j int) bool { return out[i][0] < out[j][0] })
+	return out
+}
+
+func normalForm(p string) string {
+	re, err := syntax.Parse(p, syntax.Perl)
+	if err != nil {
+		return "ERROR: " + err.Error()
+	}
+	return re.Simplify().String()
+}
+
+// the map literal validName2FnMap: rule name -> function identifier ("nil" for the walkers' own rules)
+func ruleTable(files []*ast.File, consts map[string]string) [][2]string {
+	var out [][2]string
+	for _, f := range files {
+		ast.Inspect(f, func(n ast.Node) bool {
+			vs, ok := n.(*ast.ValueSpec)
+			if !ok || len(vs.Names) != 1 || vs.Names[0].Name != "validName2FnMap" || len(vs.Values) != 1 {
+				return true
+			}
+			cl, ok := vs.Values[0].(*ast.CompositeLit)
+			if !ok {
+				return true
+			}
+			for _, e := range cl.Elts {
+				kv := e.(*ast.KeyValueExpr)
+				key := "?"
+				switch k := kv.Key.(type) {
+				case *ast.Ident:
+					if v, ok := consts[k.Name]; ok {
+						key = v
+					} else {
+						key = "ident:" + k.Name
+					}
+				case *ast.BasicLit:
+					key, _ = strconv.Unquote(k.Value)
+				}
+				val := "?"
+				if id, ok := kv.Value.(*ast.Ident); ok {
+					val = id.Name
+				}
+				out = append(out, [2]string{key, val})
+			}
+			return false
+		})
+	}
+	return out
+}
+
+var listMutators = map[string]bool{"PushFront": true, "PushBack": true, "MoveToFront": true, "MoveToBack": true, "Remove": true, "Init": true,
+	"InsertBefore": true, "InsertAfter": true, "MoveBefore": true, "MoveAfter": true, "PushBackList": true, "PushFrontList": true}
+
+type lockFact struct {
+	method        string
+	lock          string // excl | shared | none
+	writes, reads bool
+	calls         []string // other methods of the receiver it calls
+}
+
+func recvName(fd *ast.FuncDecl) (string, string) {
+	if fd.Recv == nil || len(fd.Recv.List) != 1 {
+		return "", ""
+	}
+	t := fd.Recv.List[0].Type
+	if st, ok := t.(*ast.StarExpr); ok {
+		t = st.X
+	}
+	id, ok := t.(*ast.Ident)
+	if !ok || len(fd.Recv.List[0].Names) != 1 {
+		return "", ""
+	}
+	return id.Name, fd.Recv.List[0].Names[0].Name
+}
+
+func rootIdent(e ast.Expr) string {
+	for {
+		switch x := e.(type) {
+		case *ast.SelectorExpr:
+			e = x.X
+		case *ast.IndexExpr:
+			e = x.X
+		case *ast.StarExpr:
+			e = x.X
+		case *ast.Ident:
+			return x.Name
+		default:
+			return ""
+		}
+	}
+}
+
+func lockFacts(files []*ast.File, typeName, mutexField string) []lockFact {
+	var out []lockFact
+	for _, f := range files {
+		for _, d := range f.Decls {
+			fd, ok := d.(*ast.FuncDecl)
+			if !ok || fd.Body == nil {
+				continue
+			}
+			tn, rv := recvName(fd)
+			if tn != typeName {
+				continue
+			}
+			lf := lockFact{method: fd.Name.Name, lock: "none"}
+			// first statements: rv.mutex.Lock()/RLock() followed by defer rv.mutex.Unlock()/RUnlock()
+			if len(fd.Body.List) >= 2 {
+				lockCall := func(s ast.Stmt, isDefer bool) string {
+					var call *ast.CallExpr
+					if isDefer {
+						ds, ok := s.(*ast.DeferStmt)
+						if !ok {
+							return ""
+						}
+						call = ds.Call
+					} else {
+						es, ok := s.(*ast.ExprStmt)
+						if !ok {
+							return ""
+						}
+						call, ok = es.X.(*ast.CallExpr)
+						if !ok {
+							return ""
+						}
+					}
+					sel, ok := call.Fun.(*ast.SelectorExpr)
+					if !ok {
+						return ""
+					}
+					inner, ok := sel.X.(*ast.SelectorExpr)
+					if !ok || inner.Sel.Name != mutexField || rootIdent(inner) != rv {
+						return ""
+					}
+					return sel.Sel.Name
+				}
+				a, b := lockCall(fd.Body.List[0], false), lockCall(fd.Body.List[1], true)
+				switch {
+				case a == "Lock" && b == "Unlock":
+					lf.lock = "excl"
+				case a == "RLock" && b == "RUnlock":
+					lf.lock = "shared"
+				}
+			}
+			ast.Inspect(fd.Body, func(n ast.Node) bool {
+				switch x := n.(type) {
+				case *ast.AssignStmt:
+					for _, l := range x.Lhs {
+						if sel, ok := l.(*ast.SelectorExpr); ok && sel.Sel.Name == "Value" {
+							lf.writes = true // a list element's payload
+						}
+						if _, isIdent := l.(*ast.Ident); !isIdent && rootIdent(l) == rv {
+							lf.writes = true
+						}
+					}
+				case *ast.IncDecStmt:
+					if rootIdent(x.X) == rv {
+						lf.writes = true
+					}
+				case *ast.CallExpr:
+					if id, ok := x.Fun.(*ast.Ident); ok && id.Name == "delete" && len(x.Args) > 0 && rootIdent(x.Args[0]) == rv {
+						lf.writes = true
+					}
+					if sel, ok := x.Fun.(*ast.SelectorExpr); ok {
+						if rootIdent(sel.X) == rv {
+							if _, direct := sel.X.(*ast.Ident); direct {
+								lf.calls = append(lf.calls, sel.Sel.Name) // rv.method(...)
+							} else if listMutators[sel.Sel.Name] {
+								lf.writes = true
+							}
+						}
+					}
+				case *ast.SelectorExpr:
+					if id, ok := x.X.(*ast.Ident); ok && id.Name == rv && x.Sel.Name != mutexField {
+						lf.reads = true
+					}
+				}
+				return true
+			})
+			out = append(out, lf)
+		}
+	}
+	sort.Slice(out, func(i, j int) bool { return out[i].method < out[j].method })
+	return out
+}
+
+// package-level variables and the functions that assign to them (or to their elements)
+func globalWriters(files []*ast.File) [][2]string {
+	globals := map[string]bool{}
+	for _, f := range files {
+		for _, d := range f.Decls {
+			if gd, ok := d.(*ast.GenDecl); ok && gd.Tok == token.VAR {
+				for _, s := range gd.Specs {
+					for _, n := range s.(*ast.ValueSpec).Names {
+						globals[n.Name] = true
+					}
+				}
+			}
+		}
+	}
+	var out [][2]string
+	for _, f := range files {
+		for _, d := range f.Decls {
+			fd, ok := d.(*ast.FuncDecl)
+			if !ok || fd.Body == nil {
+				continue
+			}
+			// names shadowed by parameters / receivers are not globals here
+			local := map[string]bool{}
+			if fd.Recv != nil {
+				for _, fl := range fd.Recv.List {
+					for _, n := range fl.Names {
+						local[n.Name] = true
+					}
+				}
+			}
+			for _, fl := range fd.Type.Params.List {
+				for _, n := range fl.Names {
+					local[n.Name] = true
+				}
+			}
+			seen := map[string]bool{}
+			ast.Inspect(fd.Body, func(n ast.Node) bool {
+				note := func(e ast.Expr) {
+					r := rootIdent(e)
+					if globals[r] && !local[r] && !seen[r] {
+						seen[r] = true
+						out = append(out, [2]string{r, fd.Name.Name})
+					}
+				}
+				switch x := n.(type) {
+				case *ast.AssignStmt:
+					if x.Tok == token.DEFINE {
+						for _, l := range x.Lhs {
+							if id, ok := l.(*ast.Ident); ok {
+								local[id.Name] = true
+							}
+						}
+						return true
+					}
+					for _, l := range x.Lhs {
+						note(l)
+					}
+				case *ast.IncDecStmt:
+					note(x.X)
+				}
+				return true
+			})
+		}
+	}
+	sort.Slice(out, func(i, j int) bool { return out[i][0]+"/"+out[i][1] < out[j][0]+"/"+out[j][1] })
+	return out
+}
+
+func writeIfChanged(path, content string) {
+	if old, err := os.ReadFile(path); err == nil && string(old) == content {
+		return
+	}
+	os.MkdirAll(filepath.Dir(path), 0755)
+	os.WriteFile(path, []byte(content), 0644)
+}
 
 func extractMain(args []string) {
-	_ = fmt.Sprint()
+	fs := flag.NewFlagSet("extract", flag.ExitOnError)
+	repo := fs.String("repo", "/repo", "repository")
+	out := fs.String("out", "", "output directory (lean/PGV/Generated)")
+	fs.Parse(args)
+	_, vfiles := parseDir(filepath.Join(*repo, "valid"))
+	_, ffiles := parseDir(filepath.Join(*repo, "file"))
+	consts := constStrings(vfiles)
+
+	var sb strings.Builder
+	sb.WriteString("/-! GENERATED by `pgvh extract` from /repo on every run — do not edit. -/\n\nnamespace PGV.Generated\n\n")
+	sb.WriteString("/-- every `regexp.MustCompile(<constant>)` of valid/ and file/: name, pattern text, regexp/syntax normal form -/\n")
+	sb.WriteString("def patterns : List (String × String × String) := [\n")
+	pats := append(patterns(vfiles), patterns(ffiles)...)
+	for i, p := range pats {
+		sep := ","
+		if i == len(pats)-1 {
+			sep = ""
+		}
+		sb.WriteString(fmt.Sprintf("  (%s, %s, %s)%s\n", leanStr(p[0]), leanStr(p[1]), leanStr(normalForm(p[1])), sep))
+	}
+	sb.WriteString("]\n\n")
+	sb.WriteString("/-- the map literal `validName2FnMap`: rule name ↦ function (`nil` = implemented by the walkers) -/\n")
+	sb.WriteString("def ruleTable : List (String × String) := [\n")
+	rt := ruleTable(vfiles, consts)
+	for i, e := range rt {
+		sep := ","
+		if i == len(rt)-1 {
+			sep = ""
+		}
+		sb.WriteString(fmt.Sprintf("  (%s, %s)%s\n", leanStr(e[0]), leanStr(e[1]), sep))
+	}
+	sb.WriteString("]\n\n")
+	sb.WriteString("/-- the rule names of `validName2FnMap` as byte strings, in table order -/\n")
+	sb.WriteString("def ruleKeys : List (List UInt8) := [\n")
+	for i, e := range rt {
+		sep := ","
+		if i == len(rt)-1 {
+			sep = ""
+		}
+		sb.WriteString("  " + leanBytes(e[0]) + sep + "\n")
+	}
+	sb.WriteString("]\n\n")
+	sb.WriteString("/-- methods of `LRUCache`: (name, lock held for the whole body: excl / shared / none, writes shared state, reads shared state, methods of the receiver it calls) -/\n")
+	sb.WriteString("def lockFacts : List (String × String × Bool × Bool × List String) := [\n")
+	lfs := lockFacts(vfiles, "LRUCache", "rwMu")
+	for i, l := range lfs {
+		sep := ","
+		if i == len(lfs)-1 {
+			sep = ""
+		}
+		var cs []string
+		for _, c := range l.calls {
+			cs = append(cs, leanStr(c))
+		}
+		sb.WriteString(fmt.Sprintf("  (%s, %s, %v, %v, [%s])%s\n", leanStr(l.method), leanStr(l.lock), l.writes, l.reads, strings.Join(cs, ", "), sep))
+	}
+	sb.WriteString("]\n\n")
+	sb.WriteString("/-- package-level variables of `valid` that some function assigns to (variable, function) -/\n")
+	sb.WriteString("def globalWriters : List (String × String) := [\n")
+	gw := globalWriters(vfiles)
+	for i, e := range gw {
+		sep := ","
+		if i == len(gw)-1 {
+			sep = ""
+		}
+		sb.WriteString(fmt.Sprintf("  (%s, %s)%s\n", leanStr(e[0]), leanStr(e[1]), sep))
+	}
+	sb.WriteString("]\n\nend PGV.Generated\n")
+	if *out == "" {
+		fmt.Print(sb.String())
+		return
+	}
+	writeIfChanged(filepath.Join(*out, "Facts.lean"), sb.String())
 }
